@@ -1210,3 +1210,59 @@ pub fn info_attr_norm(doc: &str, expected: &str) -> Outcome {
     });
     Outcome { observed, expected: expected.to_string(), note: String::new() }
 }
+
+// ------------------------------------------------------------------------------------------------
+// C10, information-set level: [namespace name] of every element and attribute, in document order
+// (element: name=uri or name=- ; attributes of an element follow it as @name=uri)
+
+pub const NS_CASES: [(&str, &str); 9] = [
+    ("<r xmlns='u'><a/></r>", "r=u a=u"),
+    ("<r xmlns='u'><a xmlns=''><b/></a><c/></r>", "r=u a=- b=- c=u"),
+    ("<r xmlns:p='u'><p:a><p:b p:x='1' y='2'/></p:a></r>", "r=- a=u b=u @x=u @y=-"),
+    ("<r xmlns:p='u'><a xmlns:p='v'><p:b/></a><p:c/></r>", "r=- a=- b=v c=u"),
+    ("<r xmlns='u' xmlns:p='w'><a><p:b xmlns:p='x'><c p:k='1' j='2'/></p:b></a></r>", "r=u a=u b=x c=u @k=x @j=-"),
+    ("<r xml:lang='en'><a xml:space='preserve'/></r>", "r=- @lang=http://www.w3.org/XML/1998/namespace a=- @space=http://www.w3.org/XML/1998/namespace"),
+    ("<r><a xmlns='u'><b><c/></b></a><d/></r>", "r=- a=u b=u c=u d=-"),
+    ("<r xmlns='u' a='1'><b c='2'/></r>", "r=u @a=- b=u @c=-"),
+    ("<!DOCTYPE r [<!ENTITY e 'u'>]><r xmlns='&e;'><a/></r>", "r=u a=u"),
+];
+
+pub fn info_namespace_names(doc: &str, expected: &str) -> Outcome {
+    use xml_info::{Attribute, Document, Element, HasQName};
+    fn walk(e: &xml_info::XmlNode<xml_info::XmlElement>, out: &mut Vec<String>) {
+        let b = e.borrow();
+        let show = |r: xml_info::error::Result<Option<xml_info::NamespaceUri>>| match r {
+            Ok(Some(u)) if !u.value().is_empty() => u.value().to_string(),
+            Ok(Some(_)) => "(empty)".to_string(),
+            Ok(None) => "-".to_string(),
+            Err(_) => "Err".to_string(),
+        };
+        out.push(format!("{}={}", b.local_name(), show(b.namespace_name())));
+        for a in b.attributes().iter() {
+            out.push(format!("@{}={}", a.borrow().local_name(), show(a.borrow().namespace_name())));
+        }
+        for c in b.children().iter() {
+            if let Some(ce) = c.as_element() {
+                walk(&ce, out);
+            }
+        }
+    }
+    let observed = guard(|| {
+        let tree = match xml_parser::document(doc) {
+            Ok((_, t)) => t,
+            Err(_) => return "parse error".to_string(),
+        };
+        let d = match xml_info::XmlDocument::new(&tree) {
+            Ok(d) => d,
+            Err(_) => return "information set error".to_string(),
+        };
+        let root = match d.borrow().document_element() {
+            Ok(r) => r,
+            Err(_) => return "no document element".to_string(),
+        };
+        let mut out = vec![];
+        walk(&root, &mut out);
+        out.join(" ")
+    });
+    Outcome { observed, expected: expected.to_string(), note: String::new() }
+}
